@@ -22,7 +22,7 @@ REQUIRED_STRATA = {"recompute": 200, "cell": 48 * 6, "invalid-expect": 20, "samp
 EXPECTS = ("one_to_one", "many_to_one", "one_to_many", "many_to_many")
 HOWS = ("inner", "left", "full")
 VARIANTS = ("matched", "unmatched", "none", "composite", "last", "first", "triple")
-INVALID = ["one-to-one", "ONE_TO_ONE", "", None, 1, "many_to_none", "left", True, "one_to_one ", ("one_to_one",)]
+INVALID = ["one_to_one\n", "many_to_one\n", "one_to_many\n", "many_to_many\n", "\none_to_one", "one_to_one\r\n", "one_to_one\t", " many_to_many", "one_to_one\x00", b"one_to_one", "one-to-one", "ONE_TO_ONE", "", None, 1, "many_to_none", "left", True, "one_to_one ", ("one_to_one",)]
 
 
 def fn_of(L, how):
@@ -31,7 +31,22 @@ def fn_of(L, how):
 
 def run_cell(chk, spec):
 	L, R = common.mk_table(spec["left"]), common.mk_table(spec["right"])
+	if spec.get("stale_flags"):
+		# columns whose declared dtype is wider than what their current values need: a None written and overwritten again, None rows masked away
+		for T in (L, R):
+			for c in T.cols():
+				if len(c) and c._underlying[0] is not None:
+					x = c._underlying[0]
+					if call(c.__setitem__, 0, None).ok:
+						call(c.__setitem__, 0, x)
 	judge_cell(chk, L, R, spec)
+
+
+def run_prefix(chk, spec):
+	"""several joins against the SAME right table whose key lists are prefix-related (x, y) / (x): each call is judged on its own keys"""
+	L, R = common.mk_table(spec["left"]), common.mk_table(spec["right"])
+	for lon, ron, how, expect in spec["calls"]:
+		judge_cell(chk, L, R, {"how": how, "expect": expect, "lon": lon, "ron": ron, "stratum": "cell-history", "variant": "prefix-keys", "key_mode": spec["key_mode"]})
 
 
 def run_cell_history(chk, spec):
@@ -99,6 +114,12 @@ def judge_cell(chk, L, R, spec):
 		chk.fail("many_to_many never rejects", f"cardinality/many-to-many-raises/{how}/{type(mm.exc).__name__}", f"{spec!r}: {mm!r}")
 		return
 	mmrows = J.result_rows(mm.value)[1]
+	sa = [None if c.schema() is None else (c.schema().kind, c.schema().nullable) for c in o.value.cols()]
+	sb = [None if c.schema() is None else (c.schema().kind, c.schema().nullable) for c in mm.value.cols()]
+	if J.rows_same(got, mmrows) and got and (sa != sb or o.value.column_names() != mm.value.column_names()):
+		chk.fail("an accepted call returns exactly the many_to_many result", f"cardinality/result-differs-from-many-to-many/{how}/{expect}/dtypes-or-names",
+			f"{how} expect={expect} L keys {lkeys} R keys {rkeys}: same rows but column dtypes {sa} vs {sb} / names {o.value.column_names()} vs {mm.value.column_names()}")
+		return
 	if not J.rows_same(got, mmrows):
 		chk.fail("an accepted call returns exactly the many_to_many result", f"cardinality/result-differs-from-many-to-many/{how}/{expect}",
 			f"{how} expect={expect} L keys {lkeys} R keys {rkeys}: {short(got, 200)} vs many_to_many {short(mmrows, 200)}")
@@ -116,14 +137,14 @@ def run_invalid(chk, spec):
 			f"{spec['how']} join with expect={spec['expect']!r} returned {short(o.value, 100)}")
 
 
-RUNNERS = {"cell": run_cell, "invalid": run_invalid, "cell_history": run_cell_history}
+RUNNERS = {"prefix": run_prefix, "cell": run_cell, "invalid": run_invalid, "cell_history": run_cell_history}
 RUNNERS["recompute"] = recompute.runner("C11")
 
 
 def realise(rng, lu, ru, variant, kind="int"):
 	"""key columns (1 or 2 per side) realising (left unique?, right unique?) with the duplicate placed per variant"""
 	from datetime import datetime as _dt
-	dom = {"int": [1, 2, 3, 4, 5, 6], "str": ["a", "b", "c", "d", "e", "f"], "hash": [-1, 7, -2, 3, 2**61 - 1, 0],
+	dom = {"int": [1, 2, 3, 4, 5, 6], "str": ["a", "b", "c", "d", "e", "f"], "brace": ["{id}", "user_{n}", "{}", "{0}", "{{x", "}"], "hash": [-1, 7, -2, 3, 2**61 - 1, 0],
 		"datetime": [_dt(2020, 1, 31, 5, 0), _dt(2020, 1, 31, 17, 30), _dt(2020, 1, 31, 0, 0), _dt(2020, 1, 31, 5, 0, 1), _dt(2021, 2, 28, 9, 0), _dt(2021, 2, 28, 9, 1)]}[kind]     # hash(-1) == hash(-2), hash(0) == hash(2**61-1)
 	m1, m2, lonly, ronly, lonly2, ronly2 = dom
 	if variant == "composite":
@@ -181,8 +202,8 @@ def run(chk):
 			for lu in (True, False):
 				for ru in (True, False):
 					for variant in VARIANTS:
-						for kind in ("int", "str", "hash", "datetime"):
-							if kind == "datetime" and variant == "composite":
+						for kind in ("int", "str", "hash", "datetime", "brace"):
+							if kind in ("datetime", "brace") and variant == "composite":
 								continue
 							idx += 1
 							if not chk.mine(idx):
@@ -190,6 +211,7 @@ def run(chk):
 							lk, rk = realise(rng, lu, ru, variant, kind)
 							sp = spec_from_keys(rng, lk, rk, how, expect, variant)
 							sp["dynamic_expect"] = idx % 3 != 0
+							sp["stale_flags"] = idx % 4 == 1
 							chk.case("cell", sp, f"cell-{how}")
 		# empty sides are trivially unique
 		for expect in EXPECTS:
@@ -201,6 +223,20 @@ def run(chk):
 				s = spec_from_keys(rng, lk, rk, how, bad, "invalid")
 				s["lon"], s["ron"] = s["lon"][0], s["ron"][0]
 				chk.case("invalid", s, "invalid-expect")
+	# prefix-related key lists against one long-lived right table
+	for _ in range(60 if chk.quick() else 400):
+		xs = [1, 1, 2, 2, 3]
+		ys = ["p", "q", "p", "q", "p"]
+		order = list(range(5))
+		rng.shuffle(order)
+		right = {"names": ["x", "y", "rid"], "cols": [[xs[i] for i in order], [ys[i] for i in order], [f"R{i}" for i in range(5)]]}
+		nl = rng.choice([2, 3])
+		left = {"names": ["a", "b", "lid"], "cols": [[rng.choice([1, 2, 3, 4]) for _ in range(nl)], [rng.choice(["p", "q"]) for _ in range(nl)], [f"L{i}" for i in range(nl)]]}
+		calls = []
+		for _k in range(rng.choice([2, 3, 4])):
+			two = rng.random() < 0.5
+			calls.append((["a", "b"] if two else ["a"], ["x", "y"] if two else ["x"], rng.choice(HOWS), rng.choice(EXPECTS)))
+		chk.case("prefix", {"left": left, "right": right, "calls": calls, "key_mode": rng.choice(["name", "vector"])}, "cell-prefix")
 	# histories: the same tables joined again after a key cell was edited in place
 	for _ in range(200 if chk.quick() else 1200):
 		how = rng.choice(HOWS)
